@@ -139,14 +139,20 @@ def run(R):
     # array plumbing: stations x location samples x tensors, scalar and per-station mispick
     m = R.n(60, 1500)
     for i in range(m):
-        ns, nk, nm = R.rng.randint(1, 6), R.rng.randint(1, 3), R.rng.randint(1, 5)
+        ns, nk, nm = R.rng.randint(1, 6), R.rng.choice([1, 2, 3, 6]), R.rng.choice([1, 2, 3, 4, 5, 6, 6, 7])     # 6 makes blocks square
         a = np.array([[[R.rng.uniform(-1, 1) for _ in range(6)] for _ in range(nk)] for _ in range(ns)])
         mt = np.array([[R.rng.uniform(-1, 1) for _ in range(nm)] for _ in range(6)])
         sig = np.array([rand_sigma(R.rng) if R.rng.random() < 0.3 else R.rng.uniform(0.05, 1) for _ in range(ns)])
         w = R.rng.choice([0.0, 0.1, None])
         wv = np.array([rand_w(R.rng) * 0.5 for _ in range(ns)]) if w is None else w
+        a_arg, mt_arg, sig_arg = a.copy(), mt.copy(), sig.copy()
         with np.errstate(all='ignore'):
-            out = np.asarray(pr.polarity_ln_pdf(a.copy(), mt.copy(), sig.copy(), wv if w is None else w))
+            out = np.asarray(pr.polarity_ln_pdf(a_arg, mt_arg, sig_arg, wv.copy() if w is None else w))
+        # (a zero uncertainty is overwritten in place by the code's small positive number: idempotent and without effect on any value,
+        # so not demanded here -- the first version of this check did and raised a false alarm on the unchanged tree)
+        if not (np.array_equal(a_arg, a) and np.array_equal(mt_arg, mt) and np.all((sig_arg == sig) | (sig == 0))):
+            bad = bad or {'check': 'the coefficient, tensor and uncertainty arrays handed in are left unchanged (they are reused for the other '
+                          'data types and the next batch)', 'a': a.tolist(), 'mt': mt.tolist(), 'sigma': sig.tolist()}
         X = np.tensordot(a, mt, 1)
         R.count(('array', i), nontrivial=ns > 1)
         ok = out.shape == (nk, nm)
